@@ -9,6 +9,8 @@ Scenario (JSON-able dict):
             [kind, delta, lost_delay, vdelay] with kind in ok|wrongid|badtag|badsig|auth|invalid|garbage|peerclose|peerreset|http4xx
             |okfin|okrst (answers pair-verify ok, then - instead of answering the re-subscribe PUT - closes (FIN) / resets (RST)
             the connection delta ticks after receiving it; delta 0 or no subscription: same as ok)
+            |okbad (answers pair-verify ok, then answers the re-subscribe PUT after delta ticks with a body that is not JSON:
+            the controller hangs up itself; delta 0 or no subscription: same as ok)
             delta (ticks, only for ok): how long the accessory takes to answer the re-subscribe PUT
             lost_delay (ticks, optional): connection_lost of this connection is delivered that long after
             the controller closes it (a send buffer still draining) - the "loss of an abandoned connection" case
@@ -17,6 +19,9 @@ Scenario (JSON-able dict):
   subs:     bool - the pairing has a subscription (so connection_made(True) does a round trip)
   controls: list of [tick, kind, arg] sorted by tick; kinds:
             ensure w | cancel w | zeroconf [host indices] | soon | drop cid | dropreset cid | close | shutdown |
+            badreply v  (an API request on the ESTABLISHED session - connected and the connector finished, otherwise nothing
+            happens - that the accessory answers unusably, variant v mod 4: 0 put_json non-UTF-8 body, 1 put_json malformed
+            JSON, 2 post_json malformed JSON, 3 post_tlv HTTP 4xx; the controller then hangs up itself) |
             shutdown_then [k, kind2, arg2]  (kind2 in ensure|zeroconf delivered k loop iterations after shutdown()
             was started, in the same tick: the model sees "shutdown; kind2" at one tick)
   end:      tick at which the run stops (a final snapshot is taken)
@@ -119,7 +124,18 @@ def run_scenario(sc):
         net.log = netlog
 
         def handler(ep, method, target, body):
+            if target.startswith("/badreply"):
+                v = int(target[len("/badreply"):])
+                if v == 0:
+                    return simacc.http_response(200, b"\xff\xfe\xfanot utf-8")
+                if v in (1, 2):
+                    return simacc.http_response(200, b"{not json")
+                return simacc.http_response(470, b"\x06\x01\x02\x07\x01\x02", "application/pairing+tlv8",
+                                            reason="Connection Authorization Required")
             if method == "PUT" and target == "/characteristics":
+                if ep.verify == "okbad" and ep.delta > 0:
+                    ep.tr.lost_delay_ticks = 0     # the accessory read the request it answers: the send buffer is empty
+                    return [(ep.delta, simacc.http_response(200, b"{not json"))]
                 if ep.verify in ("okfin", "okrst") and ep.delta > 0:
                     # scripted loss inside the connector's connection_made(True) window: no answer, drop the link
                     loop.call_later(ep.delta / 4096, ep.tr.peer_fin if ep.verify == "okfin" else ep.tr.peer_reset)
@@ -179,8 +195,25 @@ def run_scenario(sc):
                 except BaseException as e:  # noqa
                     log("returned", kind, "raised:" + type(e).__name__)
 
+            async def badcall(v):
+                try:
+                    if v in (0, 1):
+                        await conn.put_json(f"/badreply{v}", {"x": 1})
+                    elif v == 2:
+                        await conn.post_json("/badreply2", {"x": 1})
+                    else:
+                        await conn.post_tlv("/badreply3", [(6, b"\x01")])
+                except asyncio.CancelledError:
+                    raise
+                except Exception:  # noqa - the API caller's AccessoryDisconnectedError; what follows is observed on the network
+                    pass
+
             def fire(kind, arg):
-                if kind == "ensure":
+                if kind == "badreply":
+                    if conn.is_connected and not any(not t.done() for t in connectors):
+                        conn.transport.lost_delay_ticks = 0    # the exchange completed: nothing left in the send buffer
+                        bg.append(asyncio.ensure_future(badcall(arg % 4)))
+                elif kind == "ensure":
                     waiters[arg] = asyncio.ensure_future(waiter(arg))
                     bg.append(waiters[arg])
                 elif kind == "cancel":
